@@ -1,6 +1,6 @@
 ------------------------------ MODULE Dispatch ------------------------------
 (***************************************************************************)
-(* Message-type dispatch.  Seven entry points route a message on the type    *)
+(* Message-type dispatch.  Eight entry points route a message on the type    *)
 (* announced in its application header through five hand-maintained        *)
 (* 30-way tables; the typed API checks the announced type against the      *)
 (* requested one.                                                          *)
@@ -21,11 +21,15 @@ TypesN == {101, 103, 104, 107, 110, 111, 112, 190, 191, 192, 196, 199, 200, 202,
 Codes == 0..999
 \* "typedCollect" is the error-collecting twin of the typed API (SwiftParser::parse_with_errors::<T>): a second copy
 \* of the same steps in the code, the same function of (announced, requested) in the reference
-EntryPoints == {"typed", "typedCollect", "auto", "wrapper", "pluginParse", "pluginPublish", "pluginValidate"}
-Typed == {"typed", "typedCollect"}
+\* "accessor" is the wrapper's table of typed accessors (as_mtNNN / into_mtNNN, 30 + 30 hand-written arms): on an
+\* auto-parsed message of the announced type, the accessor of the requested type gives the message exactly when the
+\* two are the same type ("parsed"), nothing otherwise ("mismatch"); an unsupported announced type never gets there
+EntryPoints == {"typed", "typedCollect", "accessor", "auto", "wrapper", "pluginParse", "pluginPublish", "pluginValidate"}
+Typed == {"typed", "typedCollect", "accessor"}
 
 Outcome(ep, announced, requested) ==
-  IF ep \in Typed
+  IF ep = "accessor" /\ announced \notin TypesN THEN "unsupported"
+  ELSE IF ep \in Typed
   THEN IF announced = requested THEN "parsed" ELSE "mismatch"
   ELSE IF announced \in TypesN THEN "parsed" ELSE "unsupported"
 
@@ -38,7 +42,7 @@ Spec == Init /\ [][Next]_vars
 
 (* design-level statements *)
 AllAgree == \A e1, e2 \in EntryPoints \ Typed : Outcome(e1, announced, 0) = Outcome(e2, announced, 0)
-OffDiagonalMismatch == (ep \in Typed /\ announced # requested) => Outcome(ep, announced, requested) = "mismatch"
+OffDiagonalMismatch == (ep \in Typed /\ announced # requested /\ (ep = "accessor" => announced \in TypesN)) => Outcome(ep, announced, requested) = "mismatch"
 UnsupportedReported == (ep \notin Typed /\ announced \notin TypesN) => Outcome(ep, announced, 0) = "unsupported"
 NeverParsedAsOther == Outcome(ep, announced, requested) = "parsed" =>
                          (announced \in TypesN /\ (ep \in Typed => requested = announced))
